@@ -12,6 +12,13 @@ import sys
 
 ROOT = os.path.dirname(os.path.dirname(os.path.abspath(__file__)))
 HINTS = {
+    'm13': ('prefer a clause of the statement or a part of the quantified domain that none of them touches; the harness you '
+            'are up against already varies argument types and layouts, holds results across calls, refills buffers in '
+            'place, regenerates files in place, uses boundary sizes, near-degenerate geometry and retries after failures, '
+            'so look for something of a different nature: a dependence on global interpreter state (numpy print options, '
+            'errstate, warnings filters, locale, recursion limit, random state consumed or not), on the order of keys in '
+            'a mapping the caller passes, on object identity vs equality of two arguments, on an attribute the caller may '
+            'set on a library object, or a subtle change of WHICH exception / return type is produced'),
     'm12': ('prefer a clause of the statement or a part of the quantified domain that none of them touches; re-read the '
             'statement word by word and pick the clause that looks least likely to be checked by a test harness that '
             'already knows all the ideas above; think of conditions on the VALUES involved (signs, zeros, ties, exact '
